@@ -402,7 +402,7 @@ def run(pid: str, tier: str, replay: str | None = None) -> int:
     thorough = tier == "thorough"
     rep.assumptions += ["packaging.version.Version is the PEP 440 total order (trusted base)",
                         "order-type abstraction: specifier operators touch versions only through <, ==, hash"]
-    if replay:
+    if replay and json.load(open(replay))["vector"].get("kind") in ("pairs", "laws", "session"):
         return _replay_file(rep, replay)
 
     # ------------------------------------------------------------- MC + B1: Pairs
